@@ -396,6 +396,43 @@ func c13HungStoreReadiness(t *testing.T, run *vfRun, w *vfWorld, htp string) {
 		}
 		time.Sleep(1200 * time.Millisecond) // the client gave up at 2.5 s; let the stalled reply (3.5 s) go by before the next probe
 	}
+	// sign-out whose DEL hangs (held at the store front until released): whatever the proxy answers, it must not report
+	// success while the stored session is still loadable — probed at once, with the cookie a client kept, while the DEL is
+	// still hanging
+	b := vfNewBrowser("")
+	if _, _, err := b.Login(p, vfIdentity{Sub: "u-c13-hang", Email: "c13hang@example.com", Groups: []string{"g"}}, "/"); err != nil {
+		run.Inconclusive("rig: hung-store sign-out: login failed")
+		return
+	}
+	pre := vfCookieHeader(b.Jar.For("proxy.test", "/", false))
+	release := make(chan struct{})
+	var mu sync.Mutex
+	var ops []string
+	hub.SetHooks(func(cmd *vfRedisCmd) vfRedisDecision {
+		mu.Lock()
+		defer mu.Unlock()
+		if cmd.Op == "DEL" && !strings.HasSuffix(cmd.Key, ".lock") {
+			ops = append(ops, "DEL!hang")
+			return vfRedisDecision{Gate: true}
+		}
+		ops = append(ops, cmd.Op)
+		return vfRedisDecision{}
+	}, func(c *vfRedisCmd) { <-release })
+	resp := b.Get(p, "/oauth2/sign_out?rd=%2Fbye")
+	probe := p.Do(vfGET("/oauth2/userinfo").H("Cookie", pre))
+	close(release)
+	hub.SetHooks(nil, nil)
+	mu.Lock()
+	o := &c13Outcome{Scenario: "sign-out-hung-store", Faults: []string{"hang@DEL"}, Ops: append([]string{}, ops...), Status: resp.Code, Panic: resp.Panic, Flags: p.Flags, After: map[string]int{"pre_signout_cookie_userinfo_while_del_hangs": probe.Code}}
+	mu.Unlock()
+	run.Eval("sign-out-hung-store|direct|DEL held beyond the client's read timeout")
+	run.Count("hung_store_sign_outs", 1)
+	if resp.Panic != "" {
+		run.Violation("c13:panic", "request handling panicked under a store fault: "+vfTrunc(resp.Panic, 100), o)
+	}
+	if resp.Code == 302 && probe.Code == 200 {
+		run.Violation("c13:signout-success-but-session-alive", "sign-out answered 302 while its DEL was still hanging at the store: the pre-sign-out cookie still authenticates", o)
+	}
 }
 
 func TestVerif_C13(t *testing.T) {
